@@ -585,6 +585,18 @@ def run_opsdir(hbin, stride=1):
 def run(rep, tier, seed, replay):
     hbin = vlib.build_harness()
     ok, thms = vlib.proof_gates(rep, "C09")
+    if ok:
+        # extension round 2: statements about the op count of satisfier-produced witnesses (traced Theorem A)
+        t2, b2, pr2, _ = vlib.check_property_file("C09OpsTrace")
+        if pr2:
+            rep.violation("property-file", "; ".join(pr2),
+                          {"property": "C09", "broken_tie": "Properties/C09OpsTrace.v", "problems": pr2}, found_input=False)
+            ok = False
+        else:
+            thms = thms + t2
+            rep.coverage["theorems"] = thms
+            rep.coverage["print_assumptions"] = list(rep.coverage.get("print_assumptions", [])) + \
+                [("closed" if b["closed"] else ",".join(b["axioms"])) for b in b2]
     nr, nt, nd = sizes(tier)
     only = None
     n_tr_replay = None
@@ -833,12 +845,13 @@ def run(rep, tier, seed, replay):
     except RuntimeError:
         okeyed = []
     if len(okeyed) < len(oattr):
-        okeyed = [(a, ["undershoot:opcode-count:directed"], None) for a in oattr]
+        okeyed = [(a, ["undershoot:opcode-count:unattributed"], None) for a in oattr]
     for a, comps, masks in okeyed:
         i_ = a["input"]
         for key in comps:
             before = len(rep.violations)
-            rep.violation(key, "executed-opcode count %s > static_ops %s + max_exec_op_count %s on wsh(%s) [%s, keys able to sign %s, premask %s] witness %s" % (
+            # own key: the random sat stream may report the same defect under undershoot:opcode-count:* first
+            rep.violation(key.replace("undershoot:opcode-count:", "undershoot:opcode-count:directed-multisig:"), "executed-opcode count %s > static_ops %s + max_exec_op_count %s on wsh(%s) [%s, keys able to sign %s, premask %s] witness %s" % (
                 i_["measured"], i_["static_ops"], i_["max_exec_op_count"], i_["script"], i_["mode"], i_.get("keys_able_to_sign"), i_["premask"], ",".join(i_["witness_items_hex"])[:400]),
                 dict(i_, repairs_that_cover=masks), True)
             found_real = found_real or len(rep.violations) > before
